@@ -555,7 +555,18 @@ int main(int argc, char** argv) {
   if (prop == "C01") fams.push_back(fh1);
   if (args.replay) return R.replay_one(fams, check);
   const std::string only = args.get("only");
+  const std::string skip = args.get("skip");  // comma-separated list of family-name prefixes
+  auto skipped = [&](const std::string& name) {
+    size_t a = 0;
+    while (a < skip.size()) {
+      size_t b = skip.find(',', a);
+      if (b == std::string::npos) b = skip.size();
+      if (b > a && name.compare(0, b - a, skip, a, b - a) == 0) return true;
+      a = b + 1;
+    }
+    return false;
+  };
   for (auto& f : fams)
-    if (only.empty() || only == f.name) R.run(f, check);
+    if ((only.empty() || only == f.name) && !skipped(f.name)) R.run(f, check);
   return R.finish();
 }
